@@ -412,14 +412,10 @@ impl<T: SharedResource + Add<Output = T> + Sub<Output = T>> SharedResourceState<
         route_ctx.state().get_reload_intervals().cloned().unwrap_or_default().into_iter().for_each(
             |(start_idx, end_idx)| {
                 let activity = get_activity_by_idx(route_ctx.route(), start_idx);
-                let has_resource_demand = (self.resource_capacity_fn)(activity).is_some_and(|(_, _)| {
-                    (start_idx..=end_idx)
-                        .filter_map(|idx| route_ctx.route().tour.get(idx))
-                        .filter_map(|activity| activity.job.as_ref())
-                        .any(|job| (self.resource_demand_fn)(job).is_some())
-                });
-
-                if has_resource_demand {
+                // NOTE: an interval without demand has to be protected too: the next job inserted in it (e.g. next
+                // sub-job of a multi job evaluated on a shadow copy of the route) consumes the resource as well
+                let _ = end_idx;
+                if (self.resource_capacity_fn)(activity).is_some() {
                     empty_resources[start_idx] = Some(T::default());
                 }
             },
